@@ -38,7 +38,7 @@ StepCall(e) ==
            base == IF o.kind \in {"rf", "interp"} /\ skey \in DOMAIN ref THEN ref[skey] ELSE own
            want == <<base[1], base[2], own[3]>>
            bad  == IF o.kind = "unspecified" THEN {}
-                   ELSE IF o.kind \in {"RuntimeError", "ValueError"}
+                   ELSE IF o.kind \in {"RuntimeError", "ValueError", "NotImplementedError"}
                         THEN (IF e.outcome = o.kind THEN {} ELSE {"Outcome"})
                    ELSE (IF e.outcome # "ok" THEN {"Outcome"}
                          ELSE (IF key \notin DOMAIN ref THEN {"NoRef"} ELSE {})
